@@ -85,4 +85,28 @@ inline Csr<double> random_spd_mmatrix(Rng &r, int nmin, int nmax, std::string &f
     return A;
 }
 
+// Block "vector Laplacian" on the graph of a symmetric scalar M-matrix S: every edge {i,j} carries a random SPD b x b weight
+// W_ij = W_ji = |s_ij| C_ij (the C_ij do not commute with each other), off-diagonal blocks are -W_ij, diagonal block
+// D_i = sum_j W_ij + rowsum_i(S) C_i (+ reaction term).  x^T A x = sum_edges (x_i - x_j)^T W_ij (x_i - x_j) + sum_i rowsum_i x_i^T C_i x_i, so A is
+// SPD when S is an irreducibly diagonally dominant M-matrix, and A <= 2 blockdiag(A).  Returned as scalar CSR with full blocks;
+// symmetric bitwise by construction (validated by the caller together with a Cholesky factorisation).
+inline Csr<double> block_laplacian(const Csr<double> &S, int b, Rng &r, double reaction = 0) {
+    size_t n = S.n; std::vector<std::vector<double>> W(S.nnz()), Dg(n, std::vector<double>(b * b, 0.0));
+    for (size_t i = 0; i < n; ++i) { long double rs = 0; for (ptrdiff_t j = S.ptr[i]; j < S.ptr[i + 1]; ++j) rs += S.val[j];
+        if (rs > 1e-12L) { std::vector<double> C = spd_block(b, r); for (int k = 0; k < b * b; ++k) Dg[i][k] += (double)rs * C[k]; } }
+    // optional "reaction term" acting on one random direction per node: rho_i q_i q_i^T (PSD), rho_i = reaction * s_ii.  Makes the diagonal
+    // blocks strongly anisotropic (|D^-1| >> 1/|D|) while A <= 2 blockdiag(A) still holds.
+    if (reaction > 0) for (size_t i = 0; i < n; ++i) { double sii = 0; for (ptrdiff_t j = S.ptr[i]; j < S.ptr[i + 1]; ++j) if ((size_t)S.col[j] == i) sii = S.val[j];
+        std::vector<double> q(b); double nq = 0; for (auto &v : q) { v = r.uni(-1, 1); nq += v * v; } nq = std::sqrt(nq); if (!(nq > 1e-3)) { q.assign(b, 0.0); q[0] = 1; nq = 1; } for (auto &v : q) v /= nq;
+        for (int p = 0; p < b; ++p) for (int k = 0; k < b; ++k) Dg[i][p * b + k] += reaction * sii * (q[p] * q[k]); }
+    for (size_t i = 0; i < n; ++i) for (ptrdiff_t j = S.ptr[i]; j < S.ptr[i + 1]; ++j) { size_t c = S.col[j]; if (c <= i) continue; std::vector<double> C = spd_block(b, r); double w = std::fabs(S.val[j]); for (auto &v : C) v *= w; W[j] = C;
+        for (ptrdiff_t k = S.ptr[c]; k < S.ptr[c + 1]; ++k) if ((size_t)S.col[k] == i) W[k] = C; }
+    for (size_t i = 0; i < n; ++i) for (ptrdiff_t j = S.ptr[i]; j < S.ptr[i + 1]; ++j) if ((size_t)S.col[j] != i) { if (W[j].empty()) { fprintf(stderr, "internal: block_laplacian needs a structurally symmetric matrix\n"); exit(3); } for (int k = 0; k < b * b; ++k) Dg[i][k] += W[j][k]; }
+    Csr<double> A(n * b, n * b);
+    for (size_t i = 0; i < n; ++i) for (int p = 0; p < b; ++p) { for (ptrdiff_t j = S.ptr[i]; j < S.ptr[i + 1]; ++j) { size_t c = S.col[j]; for (int q = 0; q < b; ++q) A.push(c * b + q, c == i ? Dg[i][p * b + q] : -W[j][p * b + q]); } A.end_row(); }
+    Csr<double> T = transpose(A);
+    if (T.ptr != A.ptr || T.col != A.col || std::memcmp(T.val.data(), A.val.data(), sizeof(double) * A.val.size())) { fprintf(stderr, "internal: block_laplacian is not symmetric\n"); exit(3); }
+    return A;
+}
+
 } // namespace vf
